@@ -11,3 +11,125 @@ func lemmaCntMono(s []byte, j, i int) {
 	for x := j; x < i; x++ {
 	}
 }
+
+// lemmaEncNoZero: no byte of an escaped key is zero (so the single 0x00 separator of a
+// composite key is the first zero byte). The loop finds the source byte whose image covers
+// position p.
+func lemmaEncNoZero(o []byte, off int, s []byte, p int) {
+	c := 0
+	for k := 0; k < len(s); k++ {
+		w := 1
+		if s[k] == 0 || s[k] == 1 {
+			w = 2
+		}
+		if p < k+c+w {
+			break
+		}
+		c += w - 1
+	}
+}
+
+// The witness positions (n, P, n0) are passed in as explicit ghost parameters, tied to their
+// defining expressions by preconditions: the solvers then meet one plain variable in every
+// index instead of arithmetic-equal but syntactically different sums.
+
+// lemmaEncPrefix: keys that agree on their first k bytes have escaped forms that agree on the
+// image of those k bytes (n = k + cnt(a, k) bytes long in both).
+func lemmaEncPrefix(a, b, ea, eb []byte, offa, offb, k, n int) {
+	for i := 0; i < k; i++ {
+	}
+}
+
+// lemmaEncOrder: if two keys first differ at byte k and a[k] < b[k], their escaped forms agree
+// up to the image of byte k (position n) and are strictly ordered there (within two bytes).
+func lemmaEncOrder(a, b, ea, eb []byte, offa, offb, k, n int) {
+	lemmaEncPrefix(a, b, ea, eb, offa, offb, k, n)
+}
+
+// lemmaEncProperPrefix: if a is a proper prefix of b, the escaped form of b continues with a
+// non-zero byte where the escaped form of a ends (position n = encLen(a)), so a 0x00
+// terminator after enc(a) sorts first.
+func lemmaEncProperPrefix(a, b, ea, eb []byte, offa, offb, n int) {
+	lemmaEncPrefix(a, b, ea, eb, offa, offb, len(a), n)
+	lemmaCntMono(b, len(a), len(b))
+	lemmaEncNoZero(eb, offb, b, n)
+}
+
+// verifCnt computes cnt(s, i) (ghost helper of the lemmas).
+func verifCnt(s []byte, i int) int {
+	c := 0
+	for k := 0; k < i; k++ {
+		if s[k] == 0 || s[k] == 1 {
+			c++
+		}
+	}
+	return c
+}
+
+// lemmaCompositeSecondaryOrder: composite keys are ordered by their secondary keys first. k is
+// the first index at which the secondary keys differ (sa[k] < sb[k]) or, if sa is a proper
+// prefix of sb, len(sa); P = k + cnt(sa, k) is where the composite keys first differ.
+func lemmaCompositeSecondaryOrder(Ka, Kb, sa, pa, sb, pb []byte, k, P int) {
+	lemmaCntMono(pa, 0, len(pa))
+	lemmaCntMono(pb, 0, len(pb))
+	if k < len(sa) {
+		lemmaEncOrder(sa, sb, Ka, Kb, 0, 0, k, P)
+	} else {
+		lemmaEncProperPrefix(sa, sb, Ka, Kb, 0, 0, P)
+	}
+}
+
+// lemmaCompositePrimaryOrder: with equal secondary keys, composite keys are ordered by their
+// primary keys - k as above for the primary keys, n0 = encLen(sa) + 1 where the primary image
+// starts, P = k + cnt(pa, k) the offset of the first difference inside it - EXCEPT when pa is a
+// proper prefix of pb and its escaped form is 256 bytes or longer (then the length suffix of Ka
+// meets a content byte of Kb: known finding D8), which the precondition excludes.
+func lemmaCompositePrimaryOrder(Ka, Kb, sa, pa, sb, pb []byte, k, n0, P int) {
+	lemmaCntMono(pa, 0, len(pa))
+	lemmaCntMono(pb, 0, len(pb))
+	lemmaEncPrefix(sa, sb, Ka, Kb, 0, 0, len(sa), n0-1)
+	if k < len(pa) {
+		lemmaEncOrder(pa, pb, Ka, Kb, n0, n0, k, P)
+	} else {
+		lemmaEncProperPrefix(pa, pb, Ka, Kb, n0, n0, P)
+	}
+}
+
+// lemmaCompositeInjective: a composite key determines its two parts ("can be separated
+// again"): if K is the composite key of (sa, pa) and of (sb, pb), then sa = sb and pa = pb.
+// The loops find the first difference; every branch that has one contradicts K < K.
+func lemmaCompositeInjective(K, sa, pa, sb, pb []byte) {
+	lemmaCntMono(pa, 0, len(pa))
+	lemmaCntMono(pb, 0, len(pb))
+	lemmaCntMono(sa, 0, len(sa))
+	lemmaCntMono(sb, 0, len(sb))
+	k := 0
+	for k < len(sa) && k < len(sb) && sa[k] == sb[k] {
+		k++
+	}
+	if k < len(sb) && (k == len(sa) || sa[k] < sb[k]) {
+		lemmaCompositeSecondaryOrder(K, K, sa, pa, sb, pb, k, k+verifCnt(sa, k))
+	} else if k < len(sa) {
+		lemmaCompositeSecondaryOrder(K, K, sb, pb, sa, pa, k, k+verifCnt(sb, k))
+	}
+	// here the secondary keys are equal
+	n0 := len(sa) + verifCnt(sa, len(sa)) + 1
+	j := 0
+	for j < len(pa) && j < len(pb) && pa[j] == pb[j] {
+		j++
+	}
+	if j < len(pa) && j < len(pb) {
+		if pa[j] < pb[j] {
+			lemmaCompositePrimaryOrder(K, K, sa, pa, sb, pb, j, n0, j+verifCnt(pa, j))
+		} else {
+			lemmaCompositePrimaryOrder(K, K, sb, pb, sa, pa, j, n0, j+verifCnt(pb, j))
+		}
+	} else if j < len(pb) {
+		// pa is a proper prefix of pb: its image is shorter, but both images fill the same K
+		lemmaEncPrefix(pa, pb, K, K, n0, n0, j, j+verifCnt(pa, j))
+		lemmaCntMono(pb, j, len(pb))
+	} else if j < len(pa) {
+		lemmaEncPrefix(pb, pa, K, K, n0, n0, j, j+verifCnt(pb, j))
+		lemmaCntMono(pa, j, len(pa))
+	}
+}
